@@ -162,4 +162,88 @@ theorem run_stages3 {cap mc : Nat} (h24 : 24 ≤ cap) {Z : Bytes} {sc : List (Li
       exact ⟨c', "RET", by rw [runTask_succ, hpoll'], Or.inl ⟨i, hi, hkp, k1, k2, k3, k4, Or.inr ⟨rfl, hfin⟩⟩⟩
 
 
+
+theorem run_stages3' {cap mc : Nat} (h24 : 24 ≤ cap) {Z : Bytes} {sc : List (List HOp × Bool)} {h0 : Nat} {ι : Type}
+    {P : ι → Prop} {W0 L : ι → Bytes} {evs : ι → List String}
+    (hns : ∀ i, P i → NoStuckW cap mc (W0 i))
+    (hNF : ∀ i, P i → ∀ F x, F ++ x ++ Z = W0 i → (run .header F mc).st.isFinal = false)
+    {S Fn : Conn → Prop}
+    (hcong : ∀ c c', S c → c'.phase = c.phase → c'.scripts = c.scripts → c'.stop = c.stop →
+      c'.env.mutex = c.env.mutex → TrSame c.env.tr c'.env.tr → S c')
+    (hpoll : ∀ c, S c → GRes3 S (ZTailAt cap mc Z sc h0 P W0 L evs) Fn (2 * c.env.tr.input.length + 15) c)
+    (em : EndMode) (evs0 : List String) (c : Conn) (n0 fuel : Nat) (hst : S c)
+    (hem : c.env.tr.endMode = em) (hev0 : ∀ s ∈ evs0, s ∈ c.env.tr.events)
+    (hsegs : c.env.segs = []) (hf : ans c.env.tr + 1 ≤ fuel) :
+    ∃ c'' fin, runTask fuel c n0 none = (c'', fin) ∧
+      (GEnd cap mc Z sc h0 P W0 L evs em evs0 (ans c.env.tr) c'' fin ∨
+       (fin = "RET" ∧ Fn c'' ∧ c''.env.tr.endMode = em ∧ (∀ s ∈ evs0, s ∈ c''.env.tr.events))) := by
+  refine run_gen'
+    (fun c0 => (S c0 ∨ ZTailAt cap mc Z sc h0 P W0 L evs c0) ∧
+      c0.env.tr.endMode = em ∧ (∀ s ∈ evs0, s ∈ c0.env.tr.events) ∧ ans c0.env.tr ≤ ans c.env.tr)
+    (fun c0 => (∃ c', Halts (4 * c0.env.tr.input.length + 22) c0 c' .finished ∧ Link c0 c' ∧ Fn c') ∨ ∃ i, P i ∧
+      ((∃ c', Halts (4 * c0.env.tr.input.length + 22) c0 c' .pending ∧ Link c0 c' ∧ c'.env.tr.woken = c0.env.tr.woken ∧
+        ZT cap mc (W0 i) (L i) Z c' ∧ PKeep sc h0 (evs i) c' ∧ ZParked cap mc (W0 i) (L i) Z c') ∨
+      (∃ c', Halts (4 * c0.env.tr.input.length + 22) c0 c' .finished ∧ Link c0 c' ∧
+        PKeep sc h0 (evs i) c' ∧ ZFin mc (W0 i) (L i) Z c')))
+    (fun c'' fin => GEnd cap mc Z sc h0 P W0 L evs em evs0 (ans c.env.tr) c'' fin ∨
+       (fin = "RET" ∧ Fn c'' ∧ c''.env.tr.endMode = em ∧ (∀ s ∈ evs0, s ∈ c''.env.tr.events)))
+    (fun c0 c1 h a b c d e => by
+      refine ⟨?_, e.em.trans h.2.1, fun s hs => e.mem (h.2.2.1 s hs), by
+        have := h.2.2.2; unfold ans at this ⊢; rw [e.rd, e.wr]; exact this⟩
+      rcases h.1 with h1 | ⟨i, hi, h1, h2⟩
+      · exact Or.inl (hcong _ _ h1 a b c d e)
+      · exact Or.inr ⟨i, hi, h1.cong a c e, h2.same b d e⟩)
+    (fun c0 h => ?_)
+    (fun c0 n1 f0 hS0 hsg hq _ => ?_)
+    (ans c.env.tr) c n0 fuel ⟨Or.inl hst, hem, hev0, Nat.le_refl _⟩ hsegs (Nat.le_refl _) hf
+  · -- one poll
+    have keep : ∀ {c' : Conn}, Link c0 c' → c'.env.tr.endMode = em ∧ (∀ s ∈ evs0, s ∈ c'.env.tr.events) ∧
+        ans c'.env.tr ≤ ans c.env.tr :=
+      fun hl => ⟨hl.ts.em.trans h.2.1, fun s hs => hl.ts.evm s (h.2.2.1 s hs),
+        Nat.le_trans hl.ts.ans_le h.2.2.2⟩
+    rcases h.1 with h1 | ⟨i, hi, h1, h2⟩
+    · rcases hpoll c0 h1 with (⟨c', hh, hl, hS, hw, ha⟩ | ⟨k, c1, hk1, hs, hl, i, hi, hzt, hkp⟩) | ⟨c', hh, hl, hfn⟩
+      · exact Or.inl ⟨c', hh.mono (by omega), hl, ⟨Or.inl hS, keep hl⟩, hw, ha⟩
+      · have hin1 := hl.ts.inp
+        rcases ZRes.of_steps hs hl (ztail_poll h24 (hns i hi) (hNF i hi) hzt hkp) with
+          ⟨c', hh, hl', hS, hw, ha⟩ | ⟨c', hh, r⟩ | ⟨c', hh, r⟩
+        · exact Or.inl ⟨c', hh.mono (by omega), hl', ⟨Or.inr ⟨i, hi, hS⟩, keep hl'⟩, hw, ha⟩
+        · exact Or.inr (Or.inr ⟨i, hi, Or.inl ⟨c', hh.mono (by omega), r⟩⟩)
+        · exact Or.inr (Or.inr ⟨i, hi, Or.inr ⟨c', hh.mono (by omega), r⟩⟩)
+      · exact Or.inr (Or.inl ⟨c', hh.mono (by omega), hl, hfn⟩)
+    · rcases ztail_poll h24 (hns i hi) (hNF i hi) h1 h2 with ⟨c', hh, hl', hS, hw, ha⟩ | ⟨c', hh, r⟩ | ⟨c', hh, r⟩
+      · exact Or.inl ⟨c', hh.mono (by omega), hl', ⟨Or.inr ⟨i, hi, hS⟩, keep hl'⟩, hw, ha⟩
+      · exact Or.inr (Or.inr ⟨i, hi, Or.inl ⟨c', hh.mono (by omega), r⟩⟩)
+      · exact Or.inr (Or.inr ⟨i, hi, Or.inr ⟨c', hh.mono (by omega), r⟩⟩)
+  · -- from the last poll to the end of `runTask`
+    obtain ⟨hsame, hph, hsc, hstop, hmx, hsg', hwk⟩ := prePoll_same c0 n1 hsg
+    have hN : 4 * (prePoll c0 n1 none).env.tr.input.length + 22 ≤ 6 * (prePoll c0 n1 none).env.tr.input.length + 26 := by omega
+    have keep : ∀ {c' : Conn}, Link (prePoll c0 n1 none) c' → c'.env.tr.endMode = em ∧
+        (∀ s ∈ evs0, s ∈ c'.env.tr.events) ∧ ans c'.env.tr ≤ ans c.env.tr ∧ c'.env.segs = [] :=
+      fun hl => ⟨(hl.ts.em.trans hsame.em).trans hS0.2.1, fun s hs => hl.ts.evm s (hsame.mem (hS0.2.2.1 s hs)),
+        by
+          have hans0 : ans (prePoll c0 n1 none).env.tr = ans c0.env.tr := by unfold ans; rw [hsame.rd, hsame.wr]
+          have := hl.ts.ans_le; have := hS0.2.2.2; omega, hl.segs.trans hsg'⟩
+    rcases hq with ⟨c', hh, hl, hfn⟩ | ⟨i, hi, hq⟩
+    · have hpoll' := hh.pollB hN
+      obtain ⟨k1, k2, k3, k4⟩ := keep hl
+      exact ⟨c', "RET", by rw [runTask_succ, hpoll'], Or.inr ⟨rfl, hfn, k1, k2⟩⟩
+    rcases hq with ⟨c', hh, hl, hw, hzt, hkp, hpk⟩ | ⟨c', hh, hl, hkp, hfin⟩
+    · have hpoll' := hh.pollB hN
+      have hw' : c'.env.tr.woken = false := hw.trans hwk
+      obtain ⟨k1, k2, k3, k4⟩ := keep hl
+      rw [runTask_succ, hpoll']
+      simp only [hw', Bool.false_eq_true, if_false]
+      rw [release_nil _ k4]
+      simp only [hw', Bool.false_eq_true, if_false]
+      refine ⟨_, "STALL", rfl, Or.inl ⟨i, hi, ?_⟩⟩
+      obtain ⟨F, hF, hps, hph', hlg⟩ := hpk.pst
+      exact ⟨hkp.same rfl rfl ⟨rfl, rfl, rfl, rfl, rfl, rfl, [], by simp, Quiet.nil⟩, k1, k2, k3, k4,
+        Or.inl ⟨rfl, ⟨F, hF, hps.cong rfl rfl ⟨rfl, rfl, rfl, rfl, rfl, rfl, [], by simp, Quiet.nil⟩, hph', hlg⟩,
+          hpk.inp, hpk.em⟩⟩
+    · have hpoll' := hh.pollB hN
+      obtain ⟨k1, k2, k3, k4⟩ := keep hl
+      exact ⟨c', "RET", by rw [runTask_succ, hpoll'], Or.inl ⟨i, hi, hkp, k1, k2, k3, k4, Or.inr ⟨rfl, hfin⟩⟩⟩
+
+
 end Fcgi.E2E
